@@ -978,15 +978,16 @@ def _cmp_query(chk, fam, case, what, kind, got, exp, cf_tol):
     """compare one query result (tag, array) with the closed-form expectation"""
     if exp[0] == "raise":
         if got != ("raise", exp[1]):
-            chk.fail((fam, what, "small_distance_does_not_raise", kind), case, observed=_short(got),
-                     expected=exp[1])
+            chk.fail((SITE[fam], "query_history", "small_distance_does_not_raise"), case,
+                     observed="%s %s: %r" % (what, kind, _short(got)), expected=exp[1])
         return
     if got[0] != "a" or got[1].shape != exp[1].shape:
         if got[0] == "raise" and what.endswith("adm_list"):
-            chk.fail((fam, "list_of_distances_rejected", got[1]), case, observed=got,
+            chk.fail((SITE[fam], "list_of_distances_rejected", got[1]), case, observed=got,
                      expected="an array (the docstring of calc_path_loss_dB admits list[float])")
         else:
-            chk.fail((fam, what, "fails_or_wrong_shape", kind), case, observed=_short(got), expected=_short(exp[:2]))
+            chk.fail((SITE[fam], "query_history", "fails_or_wrong_shape"), case,
+                     observed="%s %s: %r" % (what, kind, _short(got)), expected=_short(exp[:2]))
         return
     g, w, dec = got[1], exp[1], exp[2]
     if kind == "dB":
@@ -997,7 +998,8 @@ def _cmp_query(chk, fam, case, what, kind, got, exp, cf_tol):
     ok = ok | ~dec
     if not np.all(ok):
         j = int(np.nonzero(~ok)[0][0])
-        chk.fail((fam, what, "value", kind), case, observed=g, expected=w, msg="first wrong entry %d" % j)
+        chk.fail((SITE[fam], "query_history", "value"), case, observed="%s %s: %r" % (what, kind, g),
+                 expected=w, msg="first wrong entry %d" % j)
 
 
 def check_query_state(chk, fam, hist, st):
@@ -1016,9 +1018,9 @@ def check_query_state(chk, fam, hist, st):
         if len(hist) >= 3:
             chk.nontriv((fam, "query") + tuple(hist[1:]))
         if not rec["inputs_intact"]:
-            chk.fail((fam, what, "input_array_not_bit_identical_after_call"), case)
+            chk.fail((SITE[fam], "query_history", "input_array_not_bit_identical_after_call"), case, observed=what)
         if rec.get("aliases_input"):
-            chk.fail((fam, what, "result_shares_memory_with_input"), case)
+            chk.fail((SITE[fam], "query_history", "result_shares_memory_with_input"), case, observed=what)
         _cmp_query(chk, fam, case, what, rec["kind"], rec["result"], exp, cf_tol)
     # ---- observation after the history, same array objects, against closed form and a fresh object ----
     fresh = F["fresh"](st.model)
@@ -1036,21 +1038,22 @@ def check_query_state(chk, fam, hist, st):
         gf = _call(ff, np.array(Q_ARRAYS[arr], dtype=float))
         chk.count("eval_differential")
         if not _same(got, gf, 1e-12):
-            chk.fail((fam, "observation_after_history_differs_from_fresh_object", kind + "_" + arr), case,
-                     observed=_short(got), expected=_short(gf))
+            chk.fail((SITE[fam], "query_history", "differs_from_fresh_object"), case,
+                     observed="%s %s: %r" % (kind, arr, _short(got)), expected=_short(gf))
     if any(st.arrays[k].tobytes() != st.bytes[k] for k in st.arrays):
-        chk.fail((fam, "observation_after_history", "input_array_not_bit_identical_after_call"), case)
+        chk.fail((SITE[fam], "query_history", "input_array_not_bit_identical_after_call"), case,
+                 observed="observation after the history")
     # scalar forms of the same distances
     for d in Q_ARRAYS["mix"]:
         exp = q_expected(fam, st.model, st.hsd, "dB", [d])
         got = _call(st.obj.calc_path_loss_dB, d)
         if exp[0] == "raise":
             if got != ("raise", "RuntimeError"):
-                chk.fail((fam, "observation_after_history_scalar", "small_distance_does_not_raise", "dB"),
-                         dict(case, d=d), observed=got, expected="RuntimeError")
+                chk.fail((SITE[fam], "query_history", "small_distance_does_not_raise"),
+                         dict(case, d=d), observed="scalar dB: %r" % (got,), expected="RuntimeError")
         elif exp[2][0] and (got[0] != "v" or not abs(got[1] - exp[1][0]) <= cf_tol):
-            chk.fail((fam, "observation_after_history_scalar", "value", "dB"), dict(case, d=d),
-                     observed=got, expected=exp[1][0])
+            chk.fail((SITE[fam], "query_history", "value"), dict(case, d=d),
+                     observed="scalar dB: %r" % (got,), expected=exp[1][0])
 
 
 def run_query_family(chk, fam, depth):
